@@ -15,7 +15,7 @@ pub fn property() -> Property {
     Property {
         id: "C18",
         level: "fault_enumeration",
-        rule: "a pool of valid (certificate, key) pairs from rcgen (ECDSA P-256 and Ed25519, distinct SANs) plus an expired certificate with its key; histories over a temp directory: WriteCert(x) / WriteKey(y) with x, y in {pool member, truncation prefix of a member, empty, garbage, PEM of the wrong kind, deleted}, Reload, Handshake (in-memory TLS handshake against get_acceptor() and against a snapshot taken the way server.rs takes it, the leaf certificate is captured by the client), PingOld (a TLS connection opened before any reload still carries data); two-file updates are two separate writes with a Reload possible in between. Fixed cases enumerate every truncation prefix of a certificate file and of a key file (quick: one of each in steps, thorough: two of each, every byte). Model = last pair for which a reload succeeded. Non-trivial = a failed reload followed by a handshake, or a reload between the two writes of an update. Distinct = distinct serialized case. Pool members 5 and 6 are chains (a leaf signed by a CA of its own; the certificate file is leaf + CA certificate): every truncation prefix of such a file is enumerated as well - a cut between the complete first block and the properly begun second block, or inside the last line of a block, may load or not; any other cut must fail the reload. Member 7 is member 0 renewed: the same key and the same serial number, another certificate (names, validity) - a reload to it must be served by every later handshake like any other. One client configuration is kept for the whole history (it stores TLS sessions, as a real client's connector does) and handshakes again after every reload next to fresh clients; the certificate a connection is bound to is read from the connection itself, so a resumed session counts as what it is.",
+        rule: "a pool of valid (certificate, key) pairs from rcgen (ECDSA P-256 and Ed25519, distinct SANs) plus an expired certificate with its key; histories over a temp directory: WriteCert(x) / WriteKey(y) with x, y in {pool member, truncation prefix of a member, empty, garbage, PEM of the wrong kind, deleted}, Reload, Handshake (in-memory TLS handshake against get_acceptor() and against a snapshot taken the way server.rs takes it, the leaf certificate is captured by the client), PingOld (a TLS connection opened before any reload still carries data); two-file updates are two separate writes with a Reload possible in between. Fixed cases enumerate every truncation prefix of a certificate file and of a key file (quick: one of each in steps, thorough: two of each, every byte). Model = last pair for which a reload succeeded. Non-trivial = a failed reload followed by a handshake, or a reload between the two writes of an update. Distinct = distinct serialized case. Pool members 5 and 6 are chains (a leaf signed by a CA of its own; the certificate file is leaf + CA certificate): every truncation prefix of such a file is enumerated as well - a cut between the complete first block and the properly begun second block, or inside the last line of a block, may load or not; any other cut must fail the reload. Member 7 is member 0 renewed: the same key and the same serial number, another certificate (names, validity) - a reload to it must be served by every later handshake like any other. One client configuration is kept for the whole history (it stores TLS sessions, as a real client's connector does) and handshakes again after every reload next to fresh clients; the certificate a connection is bound to is read from the connection itself, so a resumed session counts as what it is. Three histories in ten (and one fixed case) use configured paths that are symbolic links into a directory of generations: every write creates a new generation file and re-points the link by rename.",
         assumptions: vec![
             "rustls/rcgen/tokio-rustls as trusted dependencies; handshakes over tokio::io::duplex",
             "a prefix that ends inside the final PEM line may load or not; serve/info must agree with the result",
